@@ -33,6 +33,7 @@ func init() {
 			"be errors; _node must equal the present content of a node that is mutated between calls the way readers do (children released, new children appended). " +
 			"(2) the same histories on G goroutines sharing the VM pool and both LRU caches, under the race detector. (3) end to end: javascript_with_context on " +
 			"the record, a descendant and an ancestor over >=20 records; each _node must equal the JSON rendering of the live node right after Read. " +
+			"Also pairs of scripts that differ only in white space that matters (inside a string literal, ending a line comment). " +
 			"distinct = digest of (script family, argument names, outcome); non-trivial = call on a VM that an instrumentation call has seen before (re-use).",
 		Assumptions: []string{
 			"scripts are closed-form IIFEs that declare no globals (the statement excludes scripts that assign globals); the VM-tagging instrumentation call deliberately sets one and is never used as an oracle",
